@@ -11,6 +11,7 @@ import WowVerif.Model.SemIO
 import WowVerif.Model.SemSize
 import WowVerif.Model.UpdateMask
 import WowVerif.Model.ChunkFrame
+import WowVerif.Model.View
 import Std.Data.HashMap
 namespace WowVerif.Driver
 
@@ -537,6 +538,17 @@ def handle (ws : List String) : String :=
       match parseExp e, parseDir d, parseApi api, unhex hdr, len.toNat?, fill.toNat?, extra.toNat? with
       | some e, some d, some api, some hdr, some len, some fill, some extra => rframe e d api hdr len fill extra
       | _, _, _, _, _, _, _ => "bad-op"
+  | ["embeds", a, b] =>
+      -- C14: the verified embedding check on two schemas re-derived from the wowm sources; `name:kind:width` triples
+      let parse (t : String) : Option (List (Nat × Nat × Nat)) :=
+        if t == "-" then some [] else (t.splitOn ",").mapM fun p => match p.splitOn ":" with
+          | [x, y, z] => match x.toNat?, y.toNat?, z.toNat? with | some x, some y, some z => some (x, y, z) | _, _, _ => none
+          | _ => none
+      match parse a, parse b with
+      | some a, some b =>
+        if WowVerif.View.embedsOk a b then s!"ok 1 extra={(WowVerif.View.extraOf a b).length}"
+        else s!"ok 0 missing={" ".intercalate ((a.filter fun f => !(b.any fun g => g.1 == f.1 && g.2.1 == f.2.1 && f.2.2 ≤ g.2.2)).map fun f => s!"{f.1}:{f.2.1}:{f.2.2}")}"
+      | _, _ => "bad-op"
   | ["chunkframe", e, d, sched] =>
       -- C06: the frame reader script run by the chunked semantics over the given delivery schedule
       let steps : Option (List (Option (List UInt8))) :=
